@@ -26,7 +26,10 @@ from anchors.client_datasets import _slice_examples, _np_ones_bool
 CD = 'fedjax/core/client_datasets.py'
 
 TY = {'Z': 'Z', 'bool': 'bool', 'optZ': '(option Z)', 'rows': '(list A)', 'pieces': '(list (list A))',
-      'mask': '(list bool)', 'batch': '(batch A)', 'batches': '(list (batch A))', 'cds': '(cds A)'}
+      'mask': '(list bool)', 'batch': '(batch A)', 'batches': '(list (batch A))', 'cds': '(cds A)',
+      'elt': 'A', 'items': '(list A)', 'outs': '(list (list A))'}
+# python lists the compilers know: type of the list -> type of its elements
+LISTS = {'pieces': 'rows', 'items': 'elt'}
 
 HPARAMS_PRELUDE = '''
 if hparams is None:
@@ -116,6 +119,9 @@ class GenStep:
   def expr(self, e, env, want=None):
     return self.ctx.expr(e, env, want)
 
+  def yielded(self, e, env):
+    return self.expr(e, env, 'batch')[0]
+
   # -- statements
   def block(self, stmts, env, k):
     if not stmts:
@@ -157,13 +163,13 @@ class GenStep:
       op = '+' if isinstance(s.op, ast.Add) else '-'
       return f'let {n} := ({cur} {op} {v}) in ' + self.block(rest, env, k)
     if isinstance(s, ast.Expr) and isinstance(s.value, ast.Yield):
-      v, _ = self.expr(s.value.value, env, 'batch')
+      v = self.yielded(s.value.value, env)
       return f'let out := (out ++ [{v}]) in ' + self.block(rest, env, k)
     if isinstance(s, ast.Expr) and isinstance(s.value, ast.Call) and isinstance(s.value.func, ast.Attribute) \
-        and isinstance(s.value.func.value, ast.Name) and env.get(s.value.func.value.id) == 'pieces':
+        and isinstance(s.value.func.value, ast.Name) and env.get(s.value.func.value.id) in LISTS:
       lst, meth, call = s.value.func.value.id, s.value.func.attr, s.value
       if meth == 'append' and len(call.args) == 1 and not call.keywords:
-        v, _ = self.expr(call.args[0], env, 'rows')
+        v, _ = self.expr(call.args[0], env, LISTS[env[lst]])
         return f'let {lst} := ({lst} ++ [{v}]) in ' + self.block(rest, env, k)
       if meth == 'clear' and not call.args and not call.keywords:
         return f'let {lst} := [] in ' + self.block(rest, env, k)
@@ -184,7 +190,7 @@ class GenStep:
         b = self.block(body_none + rest, env, k)
         return f'(match {x} with Some {x} => {a} | None => {b} end)'
       # truthiness of a list
-      if isinstance(test, ast.Name) and env.get(test.id) == 'pieces':
+      if isinstance(test, ast.Name) and env.get(test.id) in LISTS:
         a = self.block(s.body + rest, env, k)
         b = self.block(s.orelse + rest, env, k)
         return f'(match {test.id} with _ :: _ => {a} | [] => {b} end)'
@@ -276,6 +282,246 @@ def _same_ast(a, b):
   return ast.dump(a) == ast.dump(b)
 
 
+# ===========================================================================
+# buffered_shuffle_batch_client_datasets: gen_items() loop body and the batching loop
+
+ITEM_LOOP = "for i in range(len(dataset)):\n  yield (dataset.raw_examples, i)\n"
+BATCH_EXPR = "preprocessor(concat_examples([slice_examples(e, slice(i, i + 1)) for e, i in buf]))"
+
+
+class ItemsStep(GenStep):
+  """Loop body of gen_items(): state (preprocessor, features, items)."""
+
+  def pack(self, env):
+    def opt(v):
+      return f'(Some {v})' if env[v] == 'Z' else v
+    return f'GNext {opt("preprocessor")} {opt("features")} items'
+
+  def raised(self):
+    return 'GRaise items'
+
+  def stuck(self):
+    raise Unsupported('loop on fuel inside gen_items')
+
+  def block(self, stmts, env, k):
+    if stmts:
+      s, rest = stmts[0], stmts[1:]
+      # `yield preprocessor`: the first value of the generator (consumed by next(it)), not an item;
+      # its position (right after `preprocessor = dataset.preprocessor`) is checked by the anchor
+      if isinstance(s, ast.Expr) and isinstance(s.value, ast.Yield) and isinstance(s.value.value, ast.Name) \
+          and s.value.value.id == 'preprocessor':
+        if env.get('preprocessor') != 'Z':
+          raise Unsupported('yield preprocessor before it is known')
+        return self.block(rest, env, k)
+      if isinstance(s, ast.For):
+        if not _same_ast(s, ast.parse(ITEM_LOOP).body[0]):
+          raise Unsupported('gen_items: unexpected inner loop')
+        return 'let items := (items ++ (d_rows dataset)) in ' + self.block(rest, env, k)
+    return super().block(stmts, env, k)
+
+
+def _len_of_list(ctx, e, env):
+  if len(e.args) != 1 or e.keywords or not isinstance(e.args[0], ast.Name) or env.get(e.args[0].id) not in LISTS:
+    raise Unsupported('len(...) of something else than a known list')
+  return f'(Z.of_nat (length {e.args[0].id}))', 'Z'
+
+
+class BatchStep(GenStep):
+  """Batching loop of buffered_shuffle_batch_client_datasets: state (buf, out)."""
+
+  def pack(self, env):
+    return '(buf, out)'
+
+  def raised(self):
+    raise Unsupported('raise in the batching loop')
+
+  def stuck(self):
+    raise Unsupported('loop on fuel in the batching loop')
+
+  def yielded(self, e, env):
+    if not _same_ast(e, ast.parse(BATCH_EXPR, mode='eval').body) or env.get('buf') != 'items':
+      raise Unsupported('batching loop: unexpected yielded expression')
+    return '(pre buf)'
+
+
+# ===========================================================================
+# buffered_shuffle: loop body on the state (buf, draws, out); None = IndexError
+
+class ShufStep:
+  """Statements: tuple assignment whose sources / targets are element names or
+  `buf[<int expr>]` (right-hand sides left to right, then the stores left to right),
+  `x = rng.randint(buffer_size)` (next oracle draw), `if <int comparison>:`, `yield <name>`."""
+
+  def __init__(self):
+    self.ctx = Ctx({}, {})
+
+  def idx(self, e, env):
+    return self.ctx.expr(e, {k: v for k, v in env.items() if v == 'Z'}, 'Z')[0]
+
+  def is_sub(self, e):
+    return isinstance(e, ast.Subscript) and isinstance(e.value, ast.Name) and e.value.id == 'buf'
+
+  def block(self, stmts, env, k):
+    if not stmts:
+      return k(env)
+    s, rest = stmts[0], stmts[1:]
+    if isinstance(s, ast.Assign) and len(s.targets) == 1 and isinstance(s.targets[0], ast.Tuple):
+      tg, vs = s.targets[0].elts, s.value
+      if not isinstance(vs, ast.Tuple) or len(vs.elts) != len(tg):
+        raise Unsupported('tuple assignment shape')
+      env2 = dict(env)
+
+      def stores(j):
+        if j == len(tg):
+          return self.block(rest, env2, k)
+        t = tg[j]
+        if isinstance(t, ast.Name):
+          env2[t.id] = 'elt'
+          return f'let {t.id} := rhs{j} in ' + stores(j + 1)
+        if self.is_sub(t):
+          return f'(match py_set buf {self.idx(t.slice, env)} rhs{j} with None => None | Some buf => {stores(j + 1)} end)'
+        raise Unsupported('assignment target ' + ast.dump(t)[:80])
+
+      def loads(j):
+        if j == len(tg):
+          return stores(0)
+        v = vs.elts[j]
+        if isinstance(v, ast.Name) and env.get(v.id) == 'elt':
+          return f'let rhs{j} := {v.id} in ' + loads(j + 1)
+        if self.is_sub(v):
+          return f'(match py_get buf {self.idx(v.slice, env)} with None => None | Some rhs{j} => {loads(j + 1)} end)'
+        raise Unsupported('assignment source ' + ast.dump(v)[:80])
+      return loads(0)
+    if isinstance(s, ast.Assign) and len(s.targets) == 1 and isinstance(s.targets[0], ast.Name) and \
+        _same_ast(s.value, ast.parse('rng.randint(buffer_size)', mode='eval').body):
+      n = s.targets[0].id
+      env2 = dict(env)
+      env2[n] = 'Z'
+      return f'let {n} := hd 0 draws in let draws := tl draws in ' + self.block(rest, env2, k)
+    if isinstance(s, ast.If):
+      c = self.ctx.expr(s.test, {a: b for a, b in env.items() if b == 'Z'}, 'bool')[0]
+      return f'(if {c} then {self.block(s.body + rest, env, k)} else {self.block(s.orelse + rest, env, k)})'
+    if isinstance(s, ast.Expr) and isinstance(s.value, ast.Yield) and isinstance(s.value.value, ast.Name) \
+        and env.get(s.value.value.id) == 'elt':
+      return f'let out := (out ++ [{s.value.value.id}]) in ' + self.block(rest, env, k)
+    raise Unsupported('buffered_shuffle statement ' + ast.dump(s)[:120])
+
+
+SHUF_PROLOGUE = "it = iter(source)\nbuf = list(itertools.islice(it, buffer_size))\nrng.shuffle(buf)\n"
+SHUF_EPILOGUE = "for i in buf:\n  yield i\n"
+
+
+def _top_def(tree, name):
+  for n in tree.body:
+    if isinstance(n, ast.FunctionDef) and n.name == name:
+      return n
+  raise Unsupported(name + ' not found')
+
+
+def _nodoc(body):
+  return [s for s in body if not (isinstance(s, ast.Expr) and isinstance(s.value, ast.Constant))]
+
+
+def A_buffered_shuffle():
+  def emit(tree):
+    fd = _top_def(tree, 'buffered_shuffle')
+    if [a.arg for a in fd.args.args] != ['source', 'buffer_size', 'rng']:
+      raise Unsupported('buffered_shuffle parameters')
+    body = _nodoc(fd.body)
+    pro = ast.parse(SHUF_PROLOGUE).body
+    if len(body) != len(pro) + 2 or not all(_same_ast(a, b) for a, b in zip(body, pro)):
+      raise Unsupported('buffered_shuffle: unexpected prologue')
+    loop, epi = body[len(pro):]
+    if not (isinstance(loop, ast.For) and isinstance(loop.target, ast.Name) and loop.target.id == 'i' and
+            isinstance(loop.iter, ast.Name) and loop.iter.id == 'it' and not loop.orelse):
+      raise Unsupported('buffered_shuffle: loop header')
+    if not _same_ast(epi, ast.parse(SHUF_EPILOGUE).body[0]):
+      raise Unsupported('buffered_shuffle: unexpected epilogue')
+    step = ShufStep().block(loop.body, {'buffer_size': 'Z', 'i': 'elt'}, lambda env: 'Some (buf, draws, out)')
+    return '\n'.join([
+        '(* it = iter(source); buf = list(itertools.islice(it, buffer_size)): (buf, rest of it) *)',
+        'Definition bshuf_fill (buffer_size : Z) (source : list A) : list A * list A :=',
+        '  (firstn (Z.to_nat buffer_size) source, skipn (Z.to_nat buffer_size) source).',
+        '(* rng.shuffle(buf): the oracle is the Lehmer code of the permutation *)',
+        'Definition bshuf_shuffle (code : list nat) (buf : list A) : list A := apply_code code buf.',
+        '(* body of `for i in it:` *)',
+        'Definition bshuf_step (buffer_size : Z) (st : list A * list Z * list A) (i : A) : option (list A * list Z * list A) :=',
+        "  let '(buf, draws, out) := st in " + step + '.',
+        '(* for i in buf: yield i *)',
+        'Definition bshuf_drain (buf out : list A) : list A := out ++ buf.'])
+  return emit
+
+
+SB_TAIL = """it = gen_items()
+try:
+  preprocessor = next(it)
+except StopIteration:
+  return
+buf = []
+"""
+
+
+def A_shuffle_batch():
+  def emit(tree):
+    fd = _top_def(tree, 'buffered_shuffle_batch_client_datasets')
+    if [a.arg for a in fd.args.args] != ['datasets', 'batch_size', 'buffer_size', 'rng']:
+      raise Unsupported('buffered_shuffle_batch_client_datasets parameters')
+    body = _nodoc(fd.body)
+    if not body or not isinstance(body[0], ast.FunctionDef) or body[0].name != 'gen_items' or body[0].args.args:
+      raise Unsupported('gen_items not found')
+    gi = _nodoc(body[0].body)
+    want = ast.parse('preprocessor = None\nfeatures = None\n').body
+    if len(gi) != 3 or not all(_same_ast(a, b) for a, b in zip(gi, want)) or not isinstance(gi[2], ast.For):
+      raise Unsupported('gen_items: shape')
+    loop = gi[2]
+    if not (isinstance(loop.target, ast.Name) and loop.target.id == 'dataset' and isinstance(loop.iter, ast.Name) and
+            loop.iter.id == 'datasets' and not loop.orelse):
+      raise Unsupported('gen_items: loop header')
+    # `yield preprocessor` exactly once, right after the first assignment of the None-branch
+    ys = [n for n in ast.walk(loop) if isinstance(n, ast.Yield) and isinstance(n.value, ast.Name)]
+    first = loop.body[0] if loop.body else None
+    if len(ys) != 1 or not (isinstance(first, ast.If) and len(first.body) == 2 and
+                            _same_ast(first.body[0], ast.parse('preprocessor = dataset.preprocessor').body[0]) and
+                            isinstance(first.body[1], ast.Expr) and first.body[1].value is ys[0]):
+      raise Unsupported('gen_items: position of `yield preprocessor`')
+    ctx = MultiCtx(NAMES, CALLS)
+    g = ItemsStep('gi', ctx, 'step')
+    env = {'preprocessor': 'optZ', 'features': 'optZ', 'items': 'items', 'dataset': 'cds'}
+    gi_step = g.block(loop.body, env, g.pack)
+    if g.aux:
+      raise Unsupported('gen_items: while loop')
+    # ---- the consumer
+    rest = body[1:]
+    tail = ast.parse(SB_TAIL).body
+    if len(rest) != len(tail) + 2 or not all(_same_ast(a, b) for a, b in zip(rest, tail)):
+      raise Unsupported('buffered_shuffle_batch_client_datasets: unexpected statements after gen_items')
+    bloop, fin = rest[len(tail):]
+    if not (isinstance(bloop, ast.For) and isinstance(bloop.target, ast.Name) and bloop.target.id == 'item' and
+            _same_ast(bloop.iter, ast.parse('buffered_shuffle(it, buffer_size, rng)', mode='eval').body) and
+            not bloop.orelse):
+      raise Unsupported('batching loop header')
+    calls = dict(CALLS)
+    calls['len'] = _len_of_list
+    b = BatchStep('bl', MultiCtx(NAMES, calls), 'step')
+    benv = {'batch_size': 'Z', 'buf': 'items', 'out': 'outs', 'item': 'elt'}
+    bl_step = b.block(bloop.body, benv, b.pack)
+    fin_t = b.block([fin], {'batch_size': 'Z', 'buf': 'items', 'out': 'outs'}, lambda env: 'out')
+    if b.aux:
+      raise Unsupported('batching loop: while loop')
+    return '\n'.join([
+        '(* gen_items(): body of `for dataset in datasets:` *)',
+        'Definition gi_step_gen (preprocessor features : option Z) (items : list A) (dataset : cds A) : gi_res (A:=A) :=',
+        '  ' + gi_step + '.',
+        '(* body of `for item in buffered_shuffle(it, buffer_size, rng):` *)',
+        'Definition bl_step_gen (batch_size : Z) (st : list A * list (list A)) (item : A) : list A * list (list A) :=',
+        "  let '(buf, out) := st in " + bl_step + '.',
+        '(* the final `if buf: yield ...` *)',
+        'Definition bl_finish_gen (batch_size : Z) (buf : list A) (out : list (list A)) : list (list A) :=',
+        '  ' + fin_t + '.'])
+  return emit
+
+
+
 def A_padded_multi(qual):
   def emit(tree):
     fd = None
@@ -347,6 +593,6 @@ MODULES = {
         'preamble': ('From FV Require Import Common.Batch Model.C03_Model Model.C15_Model.\n'
                      'Section Gen_client_datasets_multi.\nContext {A : Type} (zero : A) (pre : list A -> list A).\n'),
         'postamble': 'End Gen_client_datasets_multi.\n',
-        'items': [A_padded_multi('padded_batch_client_datasets')],
+        'items': [A_padded_multi('padded_batch_client_datasets'), A_buffered_shuffle(), A_shuffle_batch()],
     },
 }
